@@ -339,6 +339,24 @@ def check_module(case, ctx):
         if both_nan.any():
             ctx.cls("state:nan-in-both")
 
+    # (a') a module bound to a derivative takes every argument that is NOT given from the derivative - and only those
+    partial = {"log_moneyness": s - 0.0625, "time_to_maturity": t + 0.03125, "volatility": v * 1.25}
+    for arg, val in partial.items():
+        if torch.isnan(val).any():
+            continue
+        with ctx.sut("C07/module/price"):
+            gp = mod.price(**{arg: val})
+            rp = call_price(kind, "functional", partial["log_moneyness"] if arg == "log_moneyness" else s, m,
+                            partial["time_to_maturity"] if arg == "time_to_maturity" else t,
+                            partial["volatility"] if arg == "volatility" else v, K, call)
+        badp = ~(torch.isnan(gp) & torch.isnan(rp)) & ~((gp - rp).abs() <= 4 * EPS[dtype] * sc)
+        if badp.any():
+            i = tuple(int(x) for x in badp.nonzero()[0])
+            ctx.fail("C07/module/partial-arguments",
+                     f"BlackScholes({typ}).price({arg}=...) = {gp[i].item()!r} but the functional form with that {arg} and the derivative's "
+                     f"remaining state gives {rp[i].item()!r} (path {i[0]}, step {i[1]})", argument=arg)
+    ctx.cls("module:partial-arguments-checked")
+
     # (b) sampled elements with t > 0 against the expectation
     n_paths, n_steps = s.shape
     nt = False
